@@ -509,7 +509,7 @@ class SliceSpec(SerdeSpec):
                    'everything reachable from the start vertex is present (precondition of the property)',
                    'fixed hash keys (two key sets: they change the order in which the work list is drained)',
                    'built with the nightly toolchain and -Zbuild-std']
-    bounds = 'N=2: quick: ALL 343 edge structures of capacity 3 (up to two edges per vertex, no self loops; one start vertex each, every start for ten curated shapes), 45 structures of capacity 4, label kinds alpha / greek / str / two constant-label families rotating, two hash-key sets; thorough: all 343 x every start vertex + slice(), 600 structures of capacity 4 incl. any-kind labels, 150 structures with N=3'
+    bounds = 'N=2: quick: ALL 343 edge structures of capacity 3 (up to two edges per vertex, no self loops; one start vertex each, every start for ten curated shapes), 45 structures of capacity 4, label kinds alpha / greek / str / two constant-label families rotating, two hash-key sets; thorough: all 343 x every start vertex + slice(), 300 structures of capacity 4 incl. any-kind labels, 40 structures with N=3'
 
     def __init__(s):
         GraphSpec.__init__(s, [], "slice(v) and slice_some(v, p) executed on the IR with a symbolic predicate: the result's present vertices are exactly the closure of v under accepted edges (under their ids), it holds every accepted edge between kept vertices and no edge the source lacks, it satisfies the representation invariant, the source is byte-identical, the call returns on cyclic structures")
@@ -579,7 +579,7 @@ class ScriptSpec(SliceSpec):
                    'the four regex::Regex objects are compiled and run by the real regex crates inside the executor (regex-syntax, regex-automata, aho-corasick, memchr); CPU feature detection reports no optional feature; nuw/nsw/exact flag violations are treated as poison (not reported) in these runs',
                    'single fault: one ASCII byte of a concrete rendering ranges over all other ASCII values; the classification of a witness text as malformed is made by a reference grammar (seir/pscript.py ref_parse) on one model per path; Err-ness and the equality of the post-state with the commands before the fault are solver verdicts over the whole path',
                    'built with the nightly toolchain and -Zbuild-std; fixed hash keys']
-    bounds = 'quick: 24 programs of 2..6 commands x one rendering each (up to about 40 symbolic bytes per text), 40 single-fault positions over 12 programs; thorough: 150 / 300'
+    bounds = 'quick: 16 programs of 2..6 commands (half of them after 2-3 direct calls: non-empty start) x one rendering each (up to about 40 symbolic bytes per text), 32 single-fault positions over 12 programs (byte categories taking turns); thorough: 60 / 120'
 
     def __init__(s):
         GraphSpec.__init__(s, [], "Script::from_str(text).deploy_to(g) executed on the IR together with the regex crates; the same pre-state receives the corresponding add/bind/put/next_id calls built from the same solver variables; abstract post-states equal for all values of the symbolic bytes, count == number of commands; single-fault texts: no panic, Err for malformed witnesses, prefix applied")
